@@ -54,6 +54,9 @@ type PolicyPlan struct {
 	TrackerIPs []string      `json:"tracker_ips,omitempty"` // one HTTP tracker per IP
 	UDPTracker string        `json:"udp_tracker,omitempty"` // IP of a UDP tracker ("" = none)
 	Dur        time.Duration `json:"dur"`
+	// Churn: addresses (known candidates and unreachable ones) are handed to AddPeer again and
+	// again while few dial slots and a tiny address list keep them queued (bounded priority set).
+	Churn bool `json:"churn,omitempty"`
 }
 
 type ipRule struct{ first, last uint32 }
@@ -335,6 +338,28 @@ func RunPolicy(env *Env, plan *PolicyPlan) {
 
 	sut.In(func() { tor.Start() })
 
+	if plan.Churn {
+		go func() {
+			cr := env.R.Fork()
+			var pool []string
+			for _, cd := range cands {
+				if cd.c.Kind != "self" && cd.c.Port != 0 {
+					pool = append(pool, cd.addr)
+				}
+			}
+			for i := 0; i < 12; i++ {
+				pool = append(pool, fmt.Sprintf("20.9.%d.%d:%d", cr.Range(0, 3), cr.Range(1, 250), cr.Range(1024, 60000)))
+			}
+			for simrt.Now() < plan.Dur {
+				time.Sleep(cr.Dur(200*time.Millisecond, 3*time.Second))
+				for k := 0; k < cr.Range(1, 4); k++ {
+					a := simrt.Pick(cr, pool)
+					sut.In(func() { tor.AddPeer(a) })
+					simrt.Count("fault.policy.readd_address", 1)
+				}
+			}
+		}()
+	}
 	// timed offers (manual / dht / self)
 	go func() {
 		sorted := append([]*cand(nil), cands...)
@@ -598,10 +623,48 @@ func RunPolicy(env *Env, plan *PolicyPlan) {
 		}
 	}
 	pexHelper.Stop()
+	sut.Close()
+	if private && !plan.Magnet {
+		// the same torrent loaded from resume data by a new session must keep its private
+		// identity: announces after the restart carry the configured user agent and prefix
+		n0 := map[*TrackerActor]int{}
+		for _, ta := range trackers {
+			n0[ta] = len(ta.Announces())
+		}
+		dht0 := 0
+		if dhtNode != nil {
+			dht0 = len(dhtNode.Calls())
+		}
+		k2 := k
+		k2.BlocklistURL = "" // NewSession waits for a first list forever; the list server may be down by now
+		sut2, rerr := env.StartNode(sutHost, fs, sut.DBPath, k2)
+		if rerr == nil {
+			simrt.Count("probe.policy.private_restart", 1)
+			time.Sleep(40 * time.Second)
+			wantPrefix := sut2.Cfg.PrivatePeerIDPrefix
+			for _, ta := range trackers {
+				for _, a := range ta.Announces()[n0[ta]:] {
+					if a.Proto == "http" && a.UserAgent != sut2.Cfg.TrackerHTTPPrivateUserAgent {
+						simrt.Violate("C19", "private.user_agent", "after a restart the private torrent announces with User-Agent %q, configured %q", a.UserAgent, sut2.Cfg.TrackerHTTPPrivateUserAgent)
+					}
+					if !strings.HasPrefix(string(a.PeerID[:]), wantPrefix) {
+						simrt.Violate("C19", "private.peer_id_prefix", "after a restart the private torrent announces with peer id %q, configured prefix %q", a.PeerID[:], wantPrefix)
+					}
+				}
+			}
+			if dhtNode != nil {
+				for _, c := range dhtNode.Calls()[dht0:] {
+					if c.Op == "PeersRequestPort" && c.InfoHash == string(T.InfoHash[:]) {
+						simrt.Violate("C19", "private.dht_announce", "after a restart the private torrent is announced to / queried from the DHT")
+					}
+				}
+			}
+			sut2.Close()
+		}
+	}
 	for _, ta := range trackers {
 		ta.Stop()
 	}
-	sut.Close()
 	mu.Lock()
 }
 
@@ -619,6 +682,12 @@ func init() {
 			k.PrivateClientVersion = simrt.Pick(r, []string{"", "PrivateClient 9.9"})
 			k.PrivateUserAgent = simrt.Pick(r, []string{"", "PrivateUA/1.0"})
 			pp.Magnet = r.Chance(0.2)
+		}
+		if r.Chance(0.4) {
+			pp.Churn = true
+			k.MaxPeerAddresses = r.Range(2, 6)
+			k.MaxPeerDial = r.Range(1, 2)
+			k.PeerConnectTimeout = r.Dur(2*time.Second, 6*time.Second)
 		}
 		pp.K = k
 		// address plan: candidates live in 20.0.0.0/8 so that rules can target them
